@@ -25,7 +25,7 @@ type RobustCase struct {
 	Text   string      `json:"text"`
 	Origin string      `json:"origin"` // how the text was produced
 	Knobs  ExecKnobs   `json:"knobs"`
-	Cancel *FaultSpec  `json:"cancel,omitempty"` // the caller's context is cancelled while this driver call is in flight
+	Cancel *FaultSpec  `json:"cancel,omitempty"` // the caller's context is cancelled while this driver call is in flight - or (mode slow / slowmid) the call takes simulated seconds
 }
 
 type robustHarness struct{}
@@ -195,6 +195,10 @@ func (h *robustHarness) Gen(r *Rand, tier string, clean bool) any {
 	if r.Chance(0.15) {
 		// the client goes away while the statement runs: the caller's context is cancelled during driver call k
 		c.Cancel = &FaultSpec{Call: r.Intn(8), Mode: "cancel", J: r.Intn(3)}
+	}
+	if c.Cancel == nil && r.Chance(0.12) {
+		// a driver call that is slow (simulated seconds), not failing: the statement simply takes longer
+		c.Cancel = &FaultSpec{Call: r.Intn(8), Mode: []string{"slow", "slowmid"}[r.Intn(2)], J: r.Intn(6)}
 	}
 	if r.Chance(0.2) {
 		c.Graphs = []GraphData{{Name: "?g0"}, {Name: "?g1"}} // empty store content
